@@ -59,7 +59,7 @@ Definition top0 : op * list entry :=
    while the loop is entering it: on_switch_in(1,2) stays held by world 2 and
    is delivered when world 2 is entered again, before the new on_switch_in *)
 Definition ex_ok : C13_case :=
-  {| c_nps := [1%nat; 1%nat];
+  {| c_nps := [1%nat; 1%nat]; c_ncs := [1%nat; 1%nat];
      c_ops :=
        [ top0;
          (OStart [fr 0 [] (ASwitch 1 false false true); fr 8 [] ANormal] EndQuit [(KLoad, AQuit)],
@@ -68,12 +68,12 @@ Definition ex_ok : C13_case :=
            EAct (OCallback KLoad true) AQuit 2 1; EEnd (Returned false) 2 1]);
          (OStart [fr 16 [] ANormal; fr 17 [] (ASwitch 0 false false true);
                   fr 18 [] (ASwitch 1 false false true); fr 19 [] ANormal] EndQuit [],
-          [EClock 16 2 1; EProc 2 0%nat 0;
+          [EClock 16 2 1; EProc 2 0%nat 0; ECoro 2 0%nat;
            EClock 17 2 1; EProc 2 0%nat 1; EAct OProc (ASwitch 0 false false true) 2 1;
            EEv 2 (VOut 2 1); EEv 1 (VIn 2 1);
            EClock 18 1 0; EProc 1 0%nat 1; EAct OProc (ASwitch 1 false false true) 1 0;
            EEv 1 (VOut 1 2); EEv 2 (VIn 1 2); EEv 2 (VIn 1 2);
-           EClock 19 2 1; EProc 2 0%nat 1; EClockEnd EndQuit 2 1; EEnd (Returned false) 2 1]) ] |}.
+           EClock 19 2 1; EProc 2 0%nat 1; ECoro 2 0%nat; EClockEnd EndQuit 2 1; EEnd (Returned false) 2 1]) ] |}.
 Example C13_nonvacuous :
   wf_b ex_ok = true /\ known13_b ex_ok = false /\ accepts ex_ok = true /\ holds13_b ex_ok = true.
 Proof. vm_compute. auto. Qed.
@@ -81,7 +81,7 @@ Proof. vm_compute. auto. Qed.
 (* a switch requested by the on_switch_out callback supersedes the script's
    request (the first switch() never completes) and is honoured by the loop *)
 Definition ex_nested : C13_case :=
-  {| c_nps := [1%nat; 1%nat; 1%nat];
+  {| c_nps := [1%nat; 1%nat; 1%nat]; c_ncs := [1%nat; 1%nat; 1%nat];
      c_ops :=
        [ top0;
          (OStart [fr 0 [] (ASwitch 1 false false true); fr 8 [] ANormal] EndQuit
@@ -90,7 +90,7 @@ Definition ex_nested : C13_case :=
            ELoad 1 2; EEv 1 (VOut 1 2);
            EAct (OCallback KOut false) (ASwitch 2 false false true) 1 0;
            ELoad 2 3; EEv 1 (VOut 1 3); EEv 3 (VLoad 2 3); EEv 3 (VIn 1 3);
-           EClock 8 3 2; EProc 3 0%nat 8; EClockEnd EndQuit 3 2; EEnd (Returned false) 3 2]) ] |}.
+           EClock 8 3 2; EProc 3 0%nat 8; ECoro 3 0%nat; EClockEnd EndQuit 3 2; EEnd (Returned false) 3 2]) ] |}.
 Example C13_nested_nonvacuous :
   wf_b ex_nested = true /\ known13_b ex_nested = false /\ accepts ex_nested = true /\
   holds13_b ex_nested = true.
@@ -99,26 +99,26 @@ Proof. vm_compute. auto. Qed.
 (* known finding K5: switch(h, clear_next=True) - on_switch_in is queued on
    instance 2, which the loop discards; instance 3 runs and never hears it *)
 Definition k5_witness : C13_case :=
-  {| c_nps := [1%nat; 1%nat];
+  {| c_nps := [1%nat; 1%nat]; c_ncs := [1%nat; 1%nat];
      c_ops :=
        [ top0;
          (OStart [fr 0 [] (ASwitch 1 false true true); fr 8 [] ANormal] EndQuit [],
           [EClock 0 1 0; EProc 1 0%nat 0; EAct OProc (ASwitch 1 false true true) 1 0;
            ELoad 1 2; EEv 1 (VOut 1 2); ELoad 1 3; EEv 3 (VLoad 1 3);
-           EClock 8 3 1; EProc 3 0%nat 8; EClockEnd EndQuit 3 1; EEnd (Returned false) 3 1]) ] |}.
+           EClock 8 3 1; EProc 3 0%nat 8; ECoro 3 0%nat; EClockEnd EndQuit 3 1; EEnd (Returned false) 3 1]) ] |}.
 Theorem C13_clear_next_refuted :
   exists c, wf_b c = true /\ known13_b c = true /\ accepts c = true /\ holds13_b c = false.
 Proof. exists k5_witness. vm_compute. auto. Qed.
 
 (* the second form of K5: clear_current when the target is the current handle *)
 Definition k5_witness_self : C13_case :=
-  {| c_nps := [1%nat];
+  {| c_nps := [1%nat]; c_ncs := [1%nat];
      c_ops :=
        [ top0;
          (OStart [fr 0 [] (ASwitch 0 true false false); fr 8 [] ANormal] EndQuit [],
           [EClock 0 1 0; EProc 1 0%nat 0; EAct OProc (ASwitch 0 true false false) 1 0;
            EEv 1 (VOut 1 1); ELoad 0 2; EEv 2 (VLoad 0 2);
-           EClock 8 2 0; EProc 2 0%nat 8; EClockEnd EndQuit 2 0; EEnd (Returned false) 2 0]) ] |}.
+           EClock 8 2 0; EProc 2 0%nat 8; ECoro 2 0%nat; EClockEnd EndQuit 2 0; EEnd (Returned false) 2 0]) ] |}.
 Theorem C13_clear_current_self_refuted :
   exists c, wf_b c = true /\ known13_b c = true /\ accepts c = true /\ holds13_b c = false.
 Proof. exists k5_witness_self. vm_compute. auto. Qed.
@@ -128,7 +128,7 @@ Proof. exists k5_witness_self. vm_compute. auto. Qed.
    muted, world 3 is loaded, entered and gets its on_world_load and
    on_switch_in(2,3); the next iteration processes world 3 *)
 Definition chain_case : C13_case :=
-  {| c_nps := [1%nat; 1%nat; 1%nat];
+  {| c_nps := [1%nat; 1%nat; 1%nat]; c_ncs := [1%nat; 1%nat; 1%nat];
      c_ops :=
        [ top0;
          (OStart [fr 0 [] (ASwitch 1 false false true); fr 8 [] ANormal] EndQuit
@@ -137,14 +137,14 @@ Definition chain_case : C13_case :=
            ELoad 1 2; EEv 1 (VOut 1 2); EEv 2 (VLoad 1 2); EEv 2 (VIn 1 2);
            EAct (OCallback KIn true) (ASwitch 2 false false false) 2 1;
            ELoad 2 3; EEv 2 (VOut 2 3); EEv 3 (VLoad 2 3); EEv 3 (VIn 2 3);
-           EClock 8 3 2; EProc 3 0%nat 8; EClockEnd EndQuit 3 2; EEnd (Returned false) 3 2]) ] |}.
+           EClock 8 3 2; EProc 3 0%nat 8; ECoro 3 0%nat; EClockEnd EndQuit 3 2; EEnd (Returned false) 3 2]) ] |}.
 Example C13_switch_chain_holds :
   wf_b chain_case = true /\ known13_b chain_case = false /\ accepts chain_case = true /\
   holds13_b chain_case = true.
 Proof. vm_compute. auto. Qed.
 (* what the unrepaired loop did: the request escapes start() as SwitchWorld *)
 Example C13_switch_request_escapes_rejected :
-  holds13_b {| c_nps := [1%nat; 1%nat; 1%nat];
+  holds13_b {| c_nps := [1%nat; 1%nat; 1%nat]; c_ncs := [1%nat; 1%nat; 1%nat];
                c_ops := [ top0;
                  (OStart [fr 0 [] (ASwitch 1 false false true); fr 8 [] ANormal] EndQuit
                          [(KIn, ARaiseSW 2 false false)],
@@ -160,7 +160,7 @@ Definition sw1 := fr 0 [] (ASwitch 1 false false true).
 Definition sw1_log := [EClock 0 1 0; EProc 1 0%nat 0; EAct OProc (ASwitch 1 false false true) 1 0;
                        ELoad 1 2; EEv 1 (VOut 1 2); EEv 2 (VLoad 1 2); EEv 2 (VIn 1 2)].
 Example C13_left_world_not_muted_rejected :
-  holds13_b {| c_nps := [1%nat; 1%nat];
+  holds13_b {| c_nps := [1%nat; 1%nat]; c_ncs := [1%nat; 1%nat];
                c_ops := [ top0;
                  (OStart [sw1; fr 8 [(0, 1)] ANormal] EndQuit [],
                   sw1_log ++ [EClock 8 2 1; EProc 2 0%nat 8; EPoke 0 1 1; EEv 1 (VPoke 1);
@@ -168,7 +168,7 @@ Example C13_left_world_not_muted_rejected :
 Proof. vm_compute. reflexivity. Qed.
 (* (b) on_switch_in delivered before the target's own on_world_load *)
 Example C13_switch_in_before_load_events_rejected :
-  holds13_b {| c_nps := [1%nat; 1%nat];
+  holds13_b {| c_nps := [1%nat; 1%nat]; c_ncs := [1%nat; 1%nat];
                c_ops := [ top0;
                  (OStart [sw1] EndQuit [],
                   [EClock 0 1 0; EProc 1 0%nat 0; EAct OProc (ASwitch 1 false false true) 1 0;
@@ -177,7 +177,7 @@ Example C13_switch_in_before_load_events_rejected :
 Proof. vm_compute. reflexivity. Qed.
 (* (c) the wrong world is enabled: the entered instance stays silent *)
 Example C13_entered_world_silent_rejected :
-  holds13_b {| c_nps := [1%nat; 1%nat];
+  holds13_b {| c_nps := [1%nat; 1%nat]; c_ncs := [1%nat; 1%nat];
                c_ops := [ top0;
                  (OStart [sw1] EndQuit [],
                   [EClock 0 1 0; EProc 1 0%nat 0; EAct OProc (ASwitch 1 false false true) 1 0;
@@ -186,7 +186,7 @@ Example C13_entered_world_silent_rejected :
 Proof. vm_compute. reflexivity. Qed.
 (* (d) the frame is not abandoned: a later processor still runs *)
 Example C13_frame_not_abandoned_rejected :
-  holds13_b {| c_nps := [2%nat; 1%nat];
+  holds13_b {| c_nps := [2%nat; 1%nat]; c_ncs := [1%nat; 1%nat];
                c_ops := [ top0;
                  (OStart [sw1] EndQuit [],
                   sw1_log ++ [EProc 1 1%nat 0;
@@ -194,7 +194,7 @@ Example C13_frame_not_abandoned_rejected :
 Proof. vm_compute. reflexivity. Qed.
 (* (e) a handle cleared by clear_current is not reloaded *)
 Example C13_cleared_handle_not_fresh_rejected :
-  holds13_b {| c_nps := [1%nat; 1%nat];
+  holds13_b {| c_nps := [1%nat; 1%nat]; c_ncs := [1%nat; 1%nat];
                c_ops := [ top0;
                  (OStart [fr 0 [] (ARaiseSW 1 true false); fr 1 [] (ARaiseSW 0 false false)]
                          EndQuit [],
@@ -207,7 +207,7 @@ Proof. vm_compute. reflexivity. Qed.
    callback are delivered again at the next enable): on_world_load of world 2
    comes a second time when world 2 is entered again *)
 Example C13_redelivery_after_raising_callback_rejected :
-  holds13_b {| c_nps := [1%nat; 1%nat];
+  holds13_b {| c_nps := [1%nat; 1%nat]; c_ncs := [1%nat; 1%nat];
                c_ops := [ top0;
                  (OStart [sw1] EndQuit [(KIn, AQuit)],
                   sw1_log ++ [EAct (OCallback KIn true) AQuit 2 1; EEnd (Returned false) 2 1]);
@@ -217,5 +217,28 @@ Example C13_redelivery_after_raising_callback_rejected :
                    EEv 2 (VOut 2 1); EEv 1 (VIn 2 1);
                    EClock 17 1 0; EProc 1 0%nat 1; EAct OProc (ASwitch 1 false false true) 1 0;
                    EEv 1 (VOut 1 2); EEv 2 (VLoad 1 2); EEv 2 (VIn 1 2); EEv 2 (VIn 1 2);
+                   EClockEnd EndQuit 2 1; EEnd (Returned false) 2 1]) ] |} = false.
+Proof. vm_compute. reflexivity. Qed.
+(* (g) the frame is abandoned at coroutine granularity: coroutine 0 of world 1
+   requests the switch, coroutine 1 behind it must not run any more *)
+Definition co0 := {| f_t := 0; f_pokes := []; f_pos := 0%nat; f_org := OCoro;
+                     f_act := ASwitch 1 false false true |}.
+Example C13_coroutine_switch_holds :
+  let c := {| c_nps := [1%nat; 1%nat]; c_ncs := [2%nat; 1%nat];
+              c_ops := [ top0;
+                (OStart [co0] EndQuit [],
+                 [EClock 0 1 0; EProc 1 0%nat 0; ECoro 1 0%nat;
+                  EAct OCoro (ASwitch 1 false false true) 1 0;
+                  ELoad 1 2; EEv 1 (VOut 1 2); EEv 2 (VLoad 1 2); EEv 2 (VIn 1 2);
+                  EClockEnd EndQuit 2 1; EEnd (Returned false) 2 1]) ] |} in
+  wf_b c = true /\ accepts c = true /\ holds13_b c = true.
+Proof. vm_compute. auto. Qed.
+Example C13_coroutines_behind_the_switch_still_run_rejected :
+  holds13_b {| c_nps := [1%nat; 1%nat]; c_ncs := [2%nat; 1%nat];
+               c_ops := [ top0;
+                 (OStart [co0] EndQuit [],
+                  [EClock 0 1 0; EProc 1 0%nat 0; ECoro 1 0%nat;
+                   EAct OCoro (ASwitch 1 false false true) 1 0;
+                   ELoad 1 2; EEv 1 (VOut 1 2); ECoro 1 1%nat; EEv 2 (VLoad 1 2); EEv 2 (VIn 1 2);
                    EClockEnd EndQuit 2 1; EEnd (Returned false) 2 1]) ] |} = false.
 Proof. vm_compute. reflexivity. Qed.
